@@ -268,7 +268,7 @@ def run_shell_batch(which, cases, timeout=600):
     script = batch_script(cases)
     base = [lib.BRUSH, "--norc", "--noprofile", "--no-config"] if which == "brush" else [lib.BASH, "--norc", "--noprofile"]
     try:
-        p = subprocess.run(base + ["-c", script, "sh0"], stdin=subprocess.DEVNULL, stdout=subprocess.PIPE,
+        p = lib.sp_run(base + ["-c", script, "sh0"], stdin=subprocess.DEVNULL, stdout=subprocess.PIPE,
                            stderr=subprocess.DEVNULL, env=dict(lib.BASE_ENV), timeout=timeout)
         out = p.stdout.decode("utf-8", "replace")
     except subprocess.TimeoutExpired:
@@ -844,7 +844,7 @@ def run_sweep_batch(which, bodies, timeout=900):
                      % ("shopt -s extglob\n" if ext else "", b, "shopt -u extglob\n" if ext else ""))
     base = [lib.BRUSH, "--norc", "--noprofile", "--no-config"] if which == "brush" else [lib.BASH, "--norc", "--noprofile"]
     try:
-        p = subprocess.run(base + ["-c", "".join(parts), "sh0"], stdin=subprocess.DEVNULL, stdout=subprocess.PIPE,
+        p = lib.sp_run(base + ["-c", "".join(parts), "sh0"], stdin=subprocess.DEVNULL, stdout=subprocess.PIPE,
                            stderr=subprocess.DEVNULL, env=dict(lib.BASE_ENV), timeout=timeout, cwd=lib.BUILD if False else None)
         out = p.stdout.decode("utf-8", "replace")
     except subprocess.TimeoutExpired:
@@ -929,7 +929,7 @@ def context_sweep(ctx, cases, bouts, oouts, n):
         def solo(which, k):
             base = [lib.BRUSH, "--norc", "--noprofile", "--no-config"] if which == "brush" else [lib.BASH, "--norc", "--noprofile"]
             try:
-                p = subprocess.run(base + ["-c", SWEEP_PRELUDE + allb[k], "sh0"], stdin=subprocess.DEVNULL, stdout=subprocess.PIPE,
+                p = lib.sp_run(base + ["-c", SWEEP_PRELUDE + allb[k], "sh0"], stdin=subprocess.DEVNULL, stdout=subprocess.PIPE,
                                    stderr=subprocess.DEVNULL, env=dict(lib.BASE_ENV), timeout=60)
                 return p.stdout.decode("utf-8", "replace") + ("" if p.returncode == 0 else "\x05FAIL")
             except subprocess.TimeoutExpired:
